@@ -99,3 +99,30 @@ package tokenizers
 //@     invariant tokInv(c) && c.Scanner != nil && c.Scanner == old(c.Scanner) && sc(c.Scanner).content == old(sc(c.Scanner).content)
 //@     invariant old(cur(c.Scanner)) <= cur(c.Scanner)
 //@     decreases len(sc(c.Scanner).content) - cur(c.Scanner)
+
+// ---- configuration and whole-input tokenization as the parsers use them ---------------------------------------
+//@ interface ITokenizer.SetSkipWhitespaces(self, value)
+//@   requires self != nil
+//@   assigns any(AbstractTokenizer).skipWhitespaces
+//@   nopanic
+//@ interface ITokenizer.SetSkipComments(self, value)
+//@   requires self != nil
+//@   assigns any(AbstractTokenizer).skipComments
+//@   nopanic
+//@ interface ITokenizer.SetSkipEof(self, value)
+//@   requires self != nil
+//@   assigns any(AbstractTokenizer).skipEof
+//@   nopanic
+//@ interface ITokenizer.SetDecodeStrings(self, value)
+//@   requires self != nil
+//@   assigns any(AbstractTokenizer).decodeStrings
+//@   nopanic
+// A12 (trusted, not verified): tokenizing a whole buffer terminates, returns a list of tokens none of which is nil,
+// and writes only the tokenizer's own reading state (the loop over ReadNextToken is covered by the bounded tokenizer
+// checks of C04/C12/C15, not by a contract)
+//@ interface ITokenizer.TokenizeBuffer(self, buffer)
+//@   requires self != nil
+//@   ensures[C03] fresh(result) && (forall i int :: 0 <= i && i < len(result) ==> result[i] != nil && allocated(result[i]))
+//@   assigns any(AbstractTokenizer).Scanner, any(AbstractTokenizer).NextTokenValue, any(AbstractTokenizer).LastTokenType
+//@   nopanic
+//@   trusted
